@@ -267,6 +267,9 @@ class Evaluator:
             return anp.Const(ext, arr.dtype, "full", arr.fill_value)
         if isinstance(arr, VirtualInMemoryArray):
             return anp.Src(key.name, tuple(s.start for s in sel), ext, arr.dtype)
+        fields = getattr(np.dtype(arr.dtype), "fields", None)
+        if fields:  # a structured array is a group of per-field arrays and is read as a dict of blocks (ZarrV3ArrayGroup.__getitem__)
+            return {f: StoredRegion(self, key.name, sel, fields[f][0], f) for f in fields}
         return StoredRegion(self, key.name, sel, arr.dtype)
 
     # ---- running one task ----
